@@ -22,6 +22,8 @@ def _c15_case(c):
                 out.append({"K": unhex(k), "V": v[1:] if v[0] == "N" else unhex(v[1:])})
             return out
         return {"op": "regpage", "kind": p[1], "items": _items(p[2]), "cap": int(p[3]), "path": unhex(p[4]), "query": _kvs(p[5]),
+                "cursorkey": unhex(p[11]), "cursorsalt": unhex(p[12]),
+                "hidden": [] if p[13] == "_" else [unhex(x) for x in p[13].split(",")],
                 "dec": {"M": int(p[6]), "Extra": _kvs(p[7]) or None, "Filter": p[8] == "1", "FHdr": unhex(p[9]), "FAnn": unhex(p[10])}}
     if p[0] == "P":
         ct = unhex(p[4])
@@ -182,9 +184,12 @@ def _vm_goal(case, out):
         return ("let w := referrers_wrap %s %s %s %s in (map u_path (w_reqs w), w_pages w, w_out w, w_fell_back w, w_state w, vm_qsames (map u_query (w_reqs w)) %s)\n  = (%s, %s, %s, %s, %s, true)"
                 % (state[st], _vm_bool(cbu), loop, ts, qs, ps, _vm_pages(o[4], int(o[3])), o[6], _vm_bool(o[8]), state[o[10]]))
     if k == "S":
-        kd, its, cap, path, q, m, extra, flt, fh, fa = p[1:11]
+        kd, its, cap, path, q, m, extra, flt, fh, fa, ck, salt, hidden = p[1:14]
+        hid = _vm_list([] if hidden == "_" else [_vm_str(x) for x in hidden.split(",")], "str")
+        vis = "(fun it : item => negb (existsb (str_eqb (fst it)) %s))" % hid
         d = "(mkDec %s %s %s %s %s 0 0)" % (m, _vm_query(extra), _vm_bool(flt), _vm_str(fh), _vm_str(fa))
-        call = "(reg_page %s %s %s (mkUrl %s %s) %s)" % (_vm_kind(kd), _vm_items(its), cap, _vm_str(path), _vm_query(q), d)
+        cu = "CLast" if ck == "-" else "(CToken %s %s)" % (_vm_str(ck), _vm_str(salt))
+        call = "(reg_page %s %s %s %s %s (mkUrl %s %s) %s)" % (_vm_kind(kd), cu, vis, _vm_items(its), cap, _vm_str(path), _vm_query(q), d)
         more = o[1] == "1"
         qchk = "vm_qsame (snd r) %s" % _vm_expq(o[2]) if more else "true"
         return "let r := %s in (fst (fst r), snd (fst r), %s) = (%s, %s, true)" % (call, qchk, _vm_items(o[0]), _vm_bool(o[1]))
@@ -257,12 +262,24 @@ def _c15_vm_sample(d, tier, coq, build, want=300):
     vdir = os.path.join(build, "vm")
     os.makedirs(vdir, exist_ok=True)
     vf = os.path.join(vdir, "C15_cases.v")
-    with open(vf, "w") as f:
-        f.write(_VM_PRELUDE)
-        for i, g in goals:
-            f.write("\n(* %s *)\nGoal %s.\nProof. vm_compute. reflexivity. Qed.\n" % (i, g))
-    p = subprocess.run(["coqc", "-R", coq, "Oras", "-w", "-notation-overridden", vf], cwd=vdir, timeout=1500,
-                       stdout=subprocess.PIPE, stderr=subprocess.STDOUT, text=True)
+
+    def compile_goals(gs):
+        with open(vf, "w") as f:
+            f.write(_VM_PRELUDE)
+            for i, g in gs:
+                f.write("\n(* %s *)\nGoal %s.\nProof. vm_compute. reflexivity. Qed.\n" % (i, g))
+        return subprocess.run(["coqc", "-R", coq, "Oras", "-w", "-notation-overridden", vf], cwd=vdir, timeout=1500,
+                              stdout=subprocess.PIPE, stderr=subprocess.STDOUT, text=True)
+    try:
+        p = compile_goals(goals)
+    except subprocess.TimeoutExpired:
+        # a loaded machine is not a disagreement: confirm on a fresh, smaller run before reporting anything
+        goals = goals[::5]
+        try:
+            p = compile_goals(goals)
+        except subprocess.TimeoutExpired:
+            return ["vm_compute re-evaluation timed out twice (%d goals): not judged" % len(goals)]
+        want = len(goals) * 2
     with open(os.path.join(d, "vm_sample.txt"), "w") as f:
         f.write("%d goals %s rc=%d\n%s" % (len(goals), dict(got), p.returncode, p.stdout[-3000:]))
     if p.returncode != 0:
@@ -285,17 +302,20 @@ CONFIG = {
     "timeout_search": 1500,
     "assumptions": [
         "net/url (URL.Parse reference resolution, URL.String, Query/Encode escaping) is abstract: the theorems quantify over any Link rendering `render` and resolver `resolve` such that resolving the registry's link text against the request URL yields the intended target (same path; query = cursor `last`, the registry's extra parameters, the request's other parameters); the harness checks this on every followed link for absolute, absolute-path, path-relative, query-only and scheme-relative forms with escaped values",
-        "encoding/json is abstract: a response is (well-formed?, document length, body length, decoded items); C15_limit_bytes assumes the stream decoder is self-delimiting on the document (decoding stops at its end; no proper prefix is accepted) -- the harness checks it with documents of limit-1, limit, limit+1 bytes incl. the 4 MiB default",
-        "queries are association lists key -> value (n numeric); url.Values.Set = replace; the order of different keys is not modelled (compared key-sorted)",
+        "encoding/json is abstract: a response is (well-formed?, document length, body length, decoded items) as declared by the generator for the shapes it produces (natural, padded inside, `null` / `{\"tags\":null}` for an empty page, leading white space, a second document behind, truncated/ill-typed bodies); C15_limit_bytes assumes the stream decoder is self-delimiting on the document (decoding stops at its end; no proper prefix is accepted) -- the harness checks it with documents of limit-1, limit, limit+1 bytes incl. the 4 MiB default",
+        "queries are association lists key -> value (n numeric); setting n / last replaces that key and keeps every other pair as written (code after fix 635f618: the raw query is edited, nothing is re-encoded; before it, pairs that url.ParseQuery rejects were dropped -- generated as raw `;` / malformed-escape pairs, corpus/C15/rawquery-prefix.json); the order of different keys is not modelled (compared key-sorted)",
         "the registry model's meaning of `last`: items after the entry named last; an unknown name is placed before the first greater item (= all greater items on a sorted registry, C15_last_on_sorted_registry); item names are non-empty and distinct",
-        "a legal registry: page length in [1, min(cap, n)] chosen freely per request, Link iff items remain, link cursor = last item of the unfiltered page, link does not change artifactType, it filters whenever it announces filtering (header or annotation, comma separated list)",
+        "a legal registry: page window of length in [1, min(cap, n)] chosen freely per request, of which it shows any subset (`vis`: entries it does not show give empty pages with a link); Link iff items remain after the window; its continuation is either `last=<last item of the window>` or an opaque cursor under another key (CToken key salt, key different from n/last/artifactType, value salt++name; such a link carries no `last`); the link may point to another path (`npath`) and may be answered after a redirect hop; it does not change artifactType and filters whenever it announces filtering (header or annotation, comma separated list)",
         "http transport, auth client and context cancellation are outside the model; Repository.Referrers' capability detection (unknown/supported/unsupported, fallback to the tag schema, state set once) is modelled (referrers_wrap, C15_referrers_capability) on top of the API loop and the tag-schema path; the tag-schema path is modelled at the level (tag found?, index size, listed referrers): limitSize + filterReferrers (C15_tag_schema), manifest fetch / digest verification are C13/C05 matters; pingReferrers is modelled on one response (C15_ping_agrees)",
         "Link: only the first header line and its first <...> are read (model = code); link-values/lines AFTER the next link are covered by the theorems (trailer) and generated; a link-value of another relation BEFORE the next link is the known finding link-rel-ignored (C15_link_rel_first_refuted), generated in a separate stream whose failures carry only that signature",
         "Content-Type of a referrers response is compared verbatim with ocispec.MediaTypeImageIndex (hand-copied constant of the pinned image-spec dependency): parameters or another spelling count as 'no referrers API' (C15_content_type_exact) -- modelled as the code behaves, generated as a disturbance",
+        "never over-read: the theorems speak of the reader abstraction `seen` (what passes limitReader is a prefix of the body of at most the limit, C15_limit/C15_limit_bytes) and of `limitSize`; how many bytes the decoder actually pulls is NOT modelled -- that clause is judged by the harness oracle with a counting body on every 200 answer (listings, Referrers wrapper incl. the index GET of the fallback, body cases); error bodies (non-200) are read by errutil under its own 8 KiB limit and are not judged",
+        "the known finding link-rel-ignored is matched by mechanism: only exactly-once / next-request / spurious-error failures of a run in which some request IS the target of the rel=first link-value; every other signature in such a run is reported as itself",
+        "every input stream has a coverage floor (harness exits non-zero = broken layer R when a stream is nearly empty)",
         "content/oci listTags is modelled on the resolver map as a list of (reference, digest of its descriptor) in any order; Go string order = byte-wise lexicographic order",
     ],
-    "level_text": "Coq theorems for all item lists, split oracles, caps, page sizes, values of last, Link renderings and filter announcements: Tags/Repositories/Referrers deliver exactly the registry's suffix after last (resp. the referrers of the requested artifact type), once, in order, within |suffix|+1 requests; a failing callback truncates the listing at that invocation with its error; pages come only from documents that fit MaxMetadataBytes (<= 0 = regenerated default), at most that many bytes pass the reader; Repository.Referrers takes its callback arguments from exactly one of the API and the tag schema, returns a callback error unchanged and sets the capability once (after fix a06e319); the referrers tag-schema fallback rejects an index over the limit and otherwise delivers the filtered referrers in one non-empty page; content/oci listTags is the sorted set of non-digest references greater than last for every map order. Model tied to registry/remote and content/oci by a differential run against an in-process fake registry (PRNG split oracle, five Link forms, malformed stream) and an independent oracle",
-    "level_note": "net/url resolution and encoding/json are hypotheses of the theorems (checked by the harness on every followed link / around the limit); transport, auth and manifest fetching of the tag-schema fallback are not modelled; Link relation types are ignored by the code (known finding link-rel-ignored)",
+    "level_text": "Coq theorems for all item lists, split oracles, caps, page sizes, values of last, Link renderings and filter announcements: Tags/Repositories/Referrers deliver exactly the registry's suffix after last (resp. the referrers of the requested artifact type), once, in order, within |suffix|+1 requests; a failing callback truncates the listing at that invocation with its error; pages come only from documents that fit MaxMetadataBytes (<= 0 = regenerated default), at most that many bytes pass the reader; Repository.Referrers takes its callback arguments from exactly one of the API and the tag schema, returns a callback error unchanged and sets the capability once (after fix a06e319); the referrers tag-schema fallback rejects an index over the limit and otherwise delivers the filtered referrers of the cleaned index (no empty entry, no descriptor twice) in one non-empty page; content/oci listTags is the sorted set of non-digest references greater than last for every map order. Model tied to registry/remote and content/oci by a differential run against an in-process fake registry (PRNG split oracle, five Link forms, malformed stream) and an independent oracle",
+    "level_note": "the clause `no more than MaxMetadataBytes is read` is a theorem only about the reader abstraction (prefix of at most the limit); the bytes really consumed are oracle-only. net/url resolution and encoding/json are hypotheses of the theorems (checked by the harness on every followed link / around the limit); transport, auth and manifest fetching of the tag-schema fallback are not modelled; Link relation types are ignored by the code (known finding link-rel-ignored)",
     "technique": "machine-checked proof in Coq (induction over the page loop against a nondeterministic registry; prefix/refinement for callback failure; sorting) + translator-regenerated constants + model/implementation correspondence against harness/fakereg",
     "explanation": "theorems over all lists/splits/links about the model of the page loops, parseLink, limitReader, filterReferrers and listTags; constants regenerated from registry/remote; model and real client run on the same fake-registry scripts (requests, callback arguments, outcome compared), the fake registry's pages compared with the registry model; independent exactly-once / stop-on-error / over-read / truncation / sortedness oracle",
 }
